@@ -46,6 +46,10 @@ def gen_case(rng, tier, k):
         # skip completion, more attractor queries (skip nodes then rely on answers computed earlier)
         bnet = common.g_chains(rng, total_max=nmax + 1, kind=rng.choice(["maa", "burst"]))
         ops.append(["frontier", rng.randrange(1 << 30), rng.randint(3, 14), rng.choice([0.0, 0.2, 0.3]), rng.choice([0.0, 0.3])])
+        for _ in range(rng.choice([0, 0, 1, 2, 3])):
+            ops.append(["rawcands", rng.randrange(64)])
+        if rng.random() < 0.35:
+            ops.append(["rawcands", "all"])
         ops.append(["expseeds"] if rng.random() < 0.7 else ["seedsq", rng.randrange(64)])
         ops.append(["skiprem"])
         for _ in range(rng.randint(0, 3)):
